@@ -117,6 +117,29 @@ theorem C11_isolation_accepted (ciph : Cipher) (honest : String → Bool) (evs :
 theorem C11_isolation_state (ciph : Cipher) (honest : String → Bool) (evs : List IEv) :
     Inv honest (C11Iso.run ciph honest {} evs) := inv_run ciph C11_wire_conv evs {} (inv_init honest)
 
+/-- **the datagrams that reach a session are its own peer's**: in any reachable state, the delivery
+`deliver a c i wrap now` (source `a`, the `i`-th datagram `d` of `a`'s client of conversation `c`, opened
+by the gate) does to every session object exactly one of: nothing; `closeFx` (the session mapped at `a`,
+another conversation, `d` starts a conversation); feed `d` to the session of address `a` AND conversation
+`c`; create the fresh session `(a, c)` and feed it `d`.  Together with `C11_frame` for the arbitrary
+datagrams of other addresses: the multiset of datagrams fed to a session of an honest `(a, c)` is a
+sub-multiset (with repetitions: the network may duplicate) of `P_a^c.wire`, in any order. -/
+theorem C11_fed_genuine (ciph : Cipher) (honest : String → Bool) (evs : List IEv) (a : String) (c : U32) (i : Nat)
+    (wrap : Bytes → Bytes) (now : U32) (P : SessG) (d : Bytes)
+    (hP : (C11Iso.run ciph honest {} evs).clients a c = some P) (hd : P.wire[i]? = some d)
+    (hgate : cryptGate ciph (wrap d) = .ok d) (j : Nat) (S' : SessIn.Sess SessG)
+    (hj : (C11Iso.step ciph honest (C11Iso.run ciph honest {} evs) (.deliver a c i wrap now)).l.objs[j]? = some S') :
+    (C11Iso.run ciph honest {} evs).l.objs[j]? = some S' ∨
+    (∃ S, (C11Iso.run ciph honest {} evs).l.objs[j]? = some S ∧
+      S' = { S with st := sessStep S.st (.update now), closed := true }) ∨
+    (∃ S, (C11Iso.run ciph honest {} evs).l.objs[j]? = some S ∧ S.addr = a ∧ S.conv = c ∧
+      S' = { S with st := sessStep S.st (.input d now) }) ∨
+    (j = (C11Iso.run ciph honest {} evs).l.objs.length ∧
+      S' = { conv := c, addr := a, st := sessStep { s := Sess.new c } (.input d now), closed := false }) := by
+  have hi := C11_isolation_state ciph honest evs
+  simp only [C11Iso.step, hP, hd, hgate, if_true] at hj
+  exact inputD_genuine C11_wire_conv hi.wf hi.cls ciph now _ (wrap d) a c P i d hP hd hgate j S' hj
+
 /-! ### the ghost fields are faithful
 
 `SessG` = a `Model/Sess` session plus the history the statement is about.  On a live session (no
